@@ -43,6 +43,15 @@ def m_cfg(maxtx, alphabet, pool, known="TRUE", prices="1, 2, 3"):
     return CFG % ("SPECIFICATION Spec", maxtx, alphabet, pool, "all", prices, known, "none", INV)
 
 
+SIG_INV = """INVARIANT CacheTransparent
+INVARIANT SenderAuthenticSeq
+VIEW View"""
+
+
+def msig_cfg(maxres):
+    return CFG % ("SPECIFICATION Spec", maxres, "sig", POOL1, "all", "1, 2, 3", "TRUE", "none", SIG_INV)
+
+
 def g_cfg(maxtx, alphabet, pool, mode="leaf", prices="1, 2, 3"):
     return CFG % ("INIT Init\nNEXT Next", maxtx, alphabet, pool, "one", prices, "TRUE", mode, "CONSTRAINT Leaf")
 
@@ -55,7 +64,7 @@ def behaviours_of(res):
 
 def nontrivial(b):
     """Non-trivial: a sequence of at least two transactions, or a single transaction whose class is not the plain valid one."""
-    if b.get("kind") == "sig":
+    if b.get("kind") in ("sig", "sigseq"):
         return True
     txs = b.get("txs", [])
     if len(txs) >= 2:
@@ -82,7 +91,12 @@ def generate(ctx):
             if isinstance(v, dict) and v.get("kind") == "CEX":
                 design_cex.append(v["clause"])
                 behs.append({"kind": "apply", "mode": v["mode"], "pool": v["pool"], "txs": v["h"]})
-    ctx.cov["exhaustive"] = m1.ok and m3.ok
+    # signature part: one transaction object (24 classes x 15 mutations) resolved under every sequence of up to 3 (4) signers,
+    # with the sender cache as state
+    msig = ctx.tlc_must("TxApply", msig_cfg(3 if quick else 4), name="M_sender_cache", timeout=900)
+    ctx.cov["exhaustive"] = m1.ok and m3.ok and msig.ok
+    if msig.violated:
+        raise vlib.Undecided("design-level violation in the signature part (%s): specification error" % msig.violated)
     ctx.cov["design_violation"] = m1.violated or m3.violated
     ctx.cov["design_cex_known_refund"] = mk.violated
     if getattr(m1, "zero_actions", None):
@@ -92,7 +106,8 @@ def generate(ctx):
     g1 = ctx.tlc_must("TxApply", g_cfg(1, "full", POOL1), name="G1_classes", timeout=900)
     g3 = ctx.tlc_must("TxApply", g_cfg(3, "seq", POOL3), name="G1_sequences", timeout=900)
     gs = ctx.tlc_must("TxApply", g_cfg(0, "seq", POOL1, mode="sig"), name="G1_signatures", timeout=300)
-    b1, b3, bs = behaviours_of(g1), behaviours_of(g3), behaviours_of(gs)
+    gq = ctx.tlc_must("TxApply", g_cfg(2 if quick else 3, "sig", POOL1, mode="sigseq"), name="G1_sender_cache", timeout=600)
+    b1, b3, bs = behaviours_of(g1), behaviours_of(g3), behaviours_of(gs) + behaviours_of(gq)
     rnd = random.Random(ctx.seed)
     if quick:
         # the quick tier keeps every class combination with price 1 or 3 and a seeded half of the sequences
@@ -126,7 +141,7 @@ def judge(ctx, behs):
     trace = ctx.path("trace.ndjson")
     info = ctx.drive("txapply", trace, behaviours=bpath)
     ctx.cov["traces_validated_against_impl"] += len(behs)
-    ctx.cov["evaluations"] += sum(len(b.get("txs", [])) or len(b.get("muts", [])) for b in behs)
+    ctx.cov["evaluations"] += sum(len(b.get("txs", [])) or len(b.get("muts", [])) or len(b.get("seq", [])) for b in behs)
     ctx.cov["distinct_nontrivial"] += len({json.dumps(b, sort_keys=True) for b in behs if nontrivial(b)})
     # T (verdict)
     res, _ = vlib.monitor(ctx, "TxApply_Mon", "TxApply_Mon.cfg", trace, behaviours=bpath, replay_meta={"driver": "txapply"}, timeout=1500)
@@ -177,7 +192,8 @@ def selftest(ctx, trace):
 def run(ctx):
     ctx.cov["rule"] = ("behaviours = stored witnesses + design counterexamples + every transaction class combination (sender x nonce x "
                        "limit x value x recipient/payload x price) under both call patterns + every sequence of three transactions of the "
-                       "reduced alphabet against a pool fitting two + signature cases (class x mutation) + simulated longer sequences; "
+                       "reduced alphabet against a pool fitting two + signature cases (class x mutation) + sender-cache cases (class x mutation x "
+                       "every sequence of up to 2 (thorough 3) home/foreign signers on one object) + simulated longer sequences; "
                        "non-trivial = a sequence of >= 2 transactions, a signature case, or a single transaction that is not the plain "
                        "valid transfer class; distinct by JSON")
     ctx.assumptions += ["ECDSA/secp256k1 itself is trusted",
